@@ -170,13 +170,13 @@ PROPS['C11'] = dict(
 PROPS['C10'] = dict(
     title='The solver reads an instance file as the instance the file denotes',
     functions=[FIO + '_get_simple_pref_list_and_ranks', FIO + '_create_pairs_row', FIO + '_create_student_ranks', FIO + '_set_lecturers', FIO + '_set_lecturer_ranks',
-               MOD + 'set_project_lists', MOD + 'set_lecturer_lists', MOD + 'set_rank_lists', MOD + '_get_max_rank'],
+               FIO + '_import_from_file', FIO + 'import_model', MOD + 'set_project_lists', MOD + 'set_lecturer_lists', MOD + 'set_rank_lists', MOD + '_get_max_rank'],
     lemmas=['C13/writer-shape', 'LISTSET/empty-append', 'LISTSET/iterate', 'SUM/ext', 'C10/derived-lists-compose'], level='other',
-    level_text='proved for all list lengths / instance sizes: the tie-aware tokeniser (values in order, dense ranks following the tie groups), the construction of a student\'s row of fresh Pair objects, the per-lecturer rank dictionary, the assignment of lecturers and lecturer ranks to every pair, and the derived project / lecturer / rank lists (each holds exactly the pairs of that project / lecturer / rank - as element sets and, for project and lecturer lists, as a sum identity for every weight, so no pair is listed twice; one rank list per rank up to the maximum); composition lemma: these postconditions are what Solver.solve requires of the derived lists.  NOT proved deductively (bounded stand-in): _import_from_file itself (the four sections delimited by the header counts, the 2-agent embedding, ignoring the trailing block) and the character-level lexer',
+    level_text='proved for all list lengths / instance sizes: the tie-aware tokeniser (values in order, dense ranks following the tie groups), the construction of a student\'s row of fresh Pair objects, the per-lecturer rank dictionary, the assignment of lecturers and lecturer ranks to every pair, and the derived project / lecturer / rank lists (each holds exactly the pairs of that project / lecturer / rank - as element sets and, for project and lecturer lists, as a sum identity for every weight, so no pair is listed twice; one rank list per rank up to the maximum); composition lemma: these postconditions are what Solver.solve requires of the derived lists.  _import_from_file itself over a file model (a list of lines, each a list of tokens; a colon ends a field): for every file whose lines have the documented shape it never raises; line 0 gives the counts; lines 1..NS become the rows (one fresh pair per token, written numbers, dense tie ranks); the next NP lines the project quotas and lecturers; with three agent types the next NL lines the lecturer quotas; in a 2-agent file project j is offered by lecturer j with the same lower quota and target = upper quota = the project\'s upper quota; anything after the last section is ignored; the rank dictionary has exactly the (lecturer, listed student) keys, so every pair finds its lecturer rank; the result satisfies sizes_ok and pairs_ok, and import_model adds the three derived lists.  NOT proved deductively (bounded stand-in): the character-level lexer (T7: replace / split), i.e. that a text line denotes its token list',
     harness=True, bound='<= 13 agents per side (two-digit numbers inside tie groups), 2-/3-agent, +-twopl, +-trailing block, extra blanks',
     budget={'quick': 20, 'thorough': 300},
     trusted=[T['T6'], T['T7'], 'T8 a file reads back as its lines in order'],
-    assumptions=['_import_from_file section logic and 2-agent embedding: bounded stand-in only', 'token strings abstracted through the shape table'])
+    assumptions=['documented file format as precondition: header counts plain and non-negative, every section line present with its numeric fields plain, preference lists well-bracketed, ranked project numbers and project lecturers in range, and (with -twopl) whoever ranks a project is ranked by the lecturer offering it (C12 for generated files)', 'token strings abstracted through the shape table; lines as token lists (T7 / T8)'])
 PROPS['C08'] = dict(
     title='Generated files are well-formed instances of the requested type and parameters',
     functions=[GS + 'create_quotas', SPA + 'create_project_lecturers', GS + 'create_ties_indicators', GS + 'create_pref_lists_original', GS + 'create_linear_distribution',
@@ -205,7 +205,7 @@ PROPS['C09'] = dict(
     title='Every generated instance is solvable by the solver under the documented flags',
     functions=[GS + 'create_string_pref', FIO + '_get_simple_pref_list_and_ranks', GS + 'create_quotas', SPA + 'create_project_lecturers',
                GS + 'create_pref_lists_from_other_lists', SPA + 'create_student_lec_lists', FIO + '_set_lecturers', FIO + '_set_lecturer_ranks', FIO + '_create_pairs_row',
-               LP + 'upper_lower_constraints', LP + 'stability_constraints', MOD + 'check_stability', BF + 'is_valid', SPA + 'generate_instances', 'generator_ha_sm_hr:Generator_ha_sm_hr.generate_instances'],
+               LP + 'upper_lower_constraints', LP + 'stability_constraints', MOD + 'check_stability', BF + 'is_valid', SPA + 'generate_instances', 'generator_ha_sm_hr:Generator_ha_sm_hr.generate_instances', FIO + '_import_from_file', FIO + 'import_model'],
     lemmas=['C05/prefix-filter', 'C13/compose', 'C12/spa-compose', 'C09/rank-keys', 'C09/quota-order', 'C08/shares', 'C08/spread-monotone'], level='other',
     level_text='composition obligations between the generator-side and reader-side contracts, each proved for all sizes: the tie writer\'s postcondition is the tie reader\'s precondition (C13/compose); generated quotas satisfy 0 <= lower <= target <= upper pointwise (C09/quota-order from the spreading lemmas and the accepted-argument postcondition); project lecturers are in range; every (lecturer, student) key the reader looks up is on that lecturer\'s generated list (C09/rank-keys from C12/spa-compose).  NOT proved deductively (bounded stand-in): the text layer between create_instance and _import_from_file, and that both solving modes are correct on the loaded instance (C01-C07 instantiated)',
     harness=True, bound='n <= 4 agents per side, all four types, LP with 0-2 criteria (+-pc, +-stab) and brute force on every generated file',
